@@ -29,7 +29,8 @@ ASSUMPTIONS = [
 REQUIRED_MONITORS = ["q_calc_positive_increasing", "linear", "gaussian_hankel_pair", "single_point_consistent",
                      "acceptance_masks_integral", "background_does_not_leak", "construction_order_independent"]
 REQUIRED_BUCKETS = {"quick": ["grid:linear", "grid:log", "n:1", "n:2..9", "n:10..200", "gaussians:1", "gaussians:>1",
-                              "acceptance:open", "acceptance:cut", "via:Gxi", "via:DirectModel", "wavelength:short"]}
+                              "acceptance:open", "acceptance:cut", "via:Gxi", "via:DirectModel", "wavelength:short",
+                              "acceptance:on-data-tof", "acceptance:on-data-mono"]}
 REQUIRED_BUCKETS["thorough"] = REQUIRED_BUCKETS["quick"]
 
 
@@ -194,6 +195,50 @@ def run_direct(case, rec):
                   {"via": "DirectModel scale x3", "max_abs_diff": float(np.max(np.abs(G4 - 3*G2)))})
         rec.bucket("via:DirectModel")
         rec.set_shape(("direct", rep), True)
+        # --- acceptance set on the data object (angle theta_max), constant and time-of-flight style wavelengths
+        from scipy.integrate import quad
+        from scipy.special import j0
+        tof = (rep % 2 == 1)
+        n = len(xi)
+        lam0 = float(rng.choice([2.5, 3.5, 9.0, 11.0]))
+        lamv = np.linspace(0.6*lam0, lam0, n) if tof else np.full(n, lam0)
+        frac = float(rng.uniform(0.5, 1.1))
+        sin_t = frac/s*lam0/(2*math.pi)              # documented cut at the longest wavelength: q = frac/s
+        if sin_t < 0.9:
+            theta_max = math.asin(sin_t)
+            d2 = sdata.empty_sesans(xi, wavelength=lamv, zacceptance=(theta_max, "radians"))
+            calc2 = direct_model.DirectModel(d2, sascore.load_model("guinier"))
+            Gm = np.asarray(calc2(background=0.0, **pars), float)
+            qc = np.asarray(calc2.resolution.q_calc, float)
+            fI = lambda t: pars["scale"]*math.exp(-t*t*s*s/2)
+            G0 = pars["scale"]*(math.exp(-qc[0]**2*s*s/2) - math.exp(-qc[-1]**2*s*s/2))/(s*s)/(2*math.pi)
+
+            def masked(cuts, idx):
+                out = []
+                for j in idx:
+                    hi_q = min(float(cuts[j]), float(qc[-1]))
+                    edges = np.linspace(qc[0], hi_q, max(8, int(4*xi[j]*hi_q)))
+                    v = sum(quad(lambda t: float(j0(t*xi[j]))*fI(t)*t, a_, b_, epsabs=0, epsrel=1e-10)[0]
+                            for a_, b_ in zip(edges[:-1], edges[1:]))/(2*math.pi)
+                    out.append(v - G0)
+                return np.array(out)
+            idx = sorted({0, n//3, n//2, n - 1})
+            documented = masked(2*math.pi/lamv*math.sin(theta_max), idx)
+            tolm = 2e-3*max(float(np.max(np.abs(documented))), 1e-3*G0)
+            okd = bool(np.all(np.abs(Gm[idx] - documented) <= tolm))
+            key = None
+            if not okd:
+                # listed finding: DirectModel hands 2 pi/max(lam) sin(theta_max) (a q value) to a mask that compares
+                # it with the scattering angle; classified only if the result equals that cut exactly as coded
+                zq = 2*math.pi/float(np.max(lamv))*math.sin(theta_max)
+                coded = masked(2*math.pi/lamv*math.sin(min(zq, math.pi/2)), idx)
+                if bool(np.all(np.abs(Gm[idx] - coded) <= tolm)):
+                    key = "C19/directmodel-passes-q-where-mask-expects-angle"
+            rec.check("acceptance_masks_integral", okd,
+                      None if okd else {"via": "DirectModel", "wavelengths": [float(lamv[0]), float(lamv[-1])], "tof": tof,
+                                        "theta_max": theta_max, "rg": rg, "got": Gm[idx], "documented_mask": documented,
+                                        "xi": xi[idx]}, key=key)
+            rec.bucket("acceptance:on-data-tof" if tof else "acceptance:on-data-mono")
 
 
 def run_case(case, rec):
